@@ -666,8 +666,10 @@ func (m optModel) predictions() *Failure {
 		other = ":"
 	}
 	if m.FieldSep != other && !strings.Contains(other, m.FieldSep) {
-		if v, err := qm.ValuesForPath("r.l", "a"+other+"1"); err == nil {
-			return failf("separator-prediction", "sub-key with separator %q accepted although the separator is %q: %v", other, m.FieldSep, v)
+		// written with ANOTHER separator the argument is no condition on member "a": an error, or a condition nothing
+		// satisfies - never the filtered result (which of the two is not the option's business)
+		if v, err := qm.ValuesForPath("r.l", "a"+other+"1"); err == nil && len(v) == 1 {
+			return failf("separator-prediction", "sub-key with separator %q taken for a condition although the separator is %q: %v", other, m.FieldSep, v)
 		}
 	}
 	return nil
